@@ -709,4 +709,65 @@ example : roundTrip 64 1000000000
     (liqRun 64 1000000000 { cfg := cfgW 500000 500000 ⟨2000000000, 0, 0⟩ } [.deposit ⟨1000000000, 2000000000, flat 2 1⟩])
     ⟨5000, 10000, flat 2 1⟩ = some (20000, 19980, 0, 3998000000, 3999000000) := by decide +kernel
 
+/-! #### audit additions: witnesses for the remaining hypotheses -/
+/-- `first_deposit_price_side`: a single side executed into the EMPTY market (zero supply, pool value 0,
+fees 0.05 %): ok, minted 5998 = ⌊2999·2/1⌋ for the net amount 2999, no positive impact. -/
+example : (match executeDeposit 64 1000000000 { cfg := cfgW 500000 500000 ⟨2000000000, 0, 0⟩ } ⟨3000, 2000, flat 2 1⟩
+      true 0 0 .worsened with
+    | (m', .ok r) => [r.minted, r.netAmount, r.positiveImpactAmount, r.fees.pool, m'.primary.long, r.netAmount * 2 / 1]
+    | _ => []) = [5998, 2999, 0, 1, 3000, 5998] := by decide +kernel
+/-- `side_mint_no_dilution` / `side_holdings` (their `SideFacts` come from `executeDeposit_spec`): one
+side executed with EXISTING supply 4 999 928 000 and a positive impact of 19 999: minted 1 000 019 999 for
+the value 1 000 019 999 (`minted · pv ≤ supply · value` with equality, `pv = supply`), the short
+holdings grow by the deposited 1 000 000 000 and the long holdings do not move. -/
+example : (match executeDeposit 64 1000000000 mImpact ⟨0, 1000000000, flat 1 1⟩ false 4999928000 19999 .improved with
+    | (m', .ok r) => [mImpact.supply, r.minted, r.netAmount, r.positiveImpactAmount,
+        sideMintValue ⟨0, 1000000000, flat 1 1⟩ false r,
+        m'.holdings false - mImpact.holdings false, m'.holdings true - mImpact.holdings true]
+    | _ => []) = [4999928000, 1000019999, 1000000000, 19999, 1000019999, 1000000000, 0] := by decide +kernel
+/-- `roundtrip_bound` (all hypotheses, including `hP`) on the positive-impact market: supply ≠ 0, flat
+prices, `r.poolValue = 5 999 947 999 ≤ t.poolValue + creditedValue = 4 999 928 000 + 1 000 019 999`; the
+conclusion: paid out 1 000 019 998 ≤ credited 1 000 019 999. -/
+example : (match deposit 64 1000000000 mImpact ⟨0, 1000000000, flat 1 1⟩ PerpIn.zero with
+     | (m₁, .ok t) =>
+       (match withdraw 64 1000000000 m₁ ⟨t.report.minted, flat 1 1⟩ PerpIn.zero with
+        | (_, .ok r) => [mImpact.supply, t.poolValue, creditedValue ⟨0, 1000000000, flat 1 1⟩ t, r.poolValue,
+            (r.longOut + r.feesL.pool + r.feesL.receiver) * 1 + (r.shortOut + r.feesS.pool + r.feesS.receiver) * 1]
+        | _ => [])
+     | _ => []) = [4999928000, 4999928000, 1000019999, 5999947999, 1000019998] := by decide +kernel
+/-- `roundtrip_no_profit_partial`, `poolValue_after_deposit_le`, `roundtrip_bound_no_positions`,
+`roundtrip_bound_slack`, `sideMintValue_le` with a REAL spread (`min < max` for index, long, short), fees,
+existing supply, no positive impact: `hP` holds (36 990 934 963 ≤ 42 989 250 000 + 214 957), paid out incl.
+fees 159 100 ≤ credited 214 957, and outputs 159 046 ≤ deposited 215 000 (all at max prices). -/
+example : (let m := liqRun 64 1000000000 { cfg := cfgW 500000 500000 ⟨2000000000, 0, 0⟩ } [.deposit ⟨1000000000, 2000000000, flat 2 1⟩]
+   let d : DepositParams := ⟨5000, 10000, ⟨⟨19, 21⟩, ⟨19, 21⟩, ⟨9, 11⟩⟩⟩
+   match deposit 64 1000000000 m d PerpIn.zero with
+     | (m₁, .ok t) =>
+       (match withdraw 64 1000000000 m₁ ⟨t.report.minted, d.prices⟩ PerpIn.zero with
+        | (_, .ok r) => [m.supply, t.long.positiveImpactAmount, t.short.positiveImpactAmount, t.poolValue, creditedValue d t, r.poolValue,
+            (r.longOut + r.feesL.pool + r.feesL.receiver) * 21 + (r.shortOut + r.feesS.pool + r.feesS.receiver) * 11,
+            r.longOut * 21 + r.shortOut * 11, d.long * 21 + d.short * 11]
+        | _ => [])
+     | _ => []) = [3998000000, 0, 0, 42989250000, 214957, 36990934963, 159100, 159046, 215000] := by decide +kernel
+/-- `NoOI` holds of that (reachable, non-initial) market. -/
+example : NoOI (liqRun 64 1000000000 { cfg := cfgW 500000 500000 ⟨2000000000, 0, 0⟩ } [.deposit ⟨1000000000, 2000000000, flat 2 1⟩]) :=
+  ⟨by decide +kernel, by decide +kernel, by decide +kernel, by decide +kernel, by decide +kernel⟩
+/-- `roundtrip_bound_open_positions`, `poolValue_after_deposit_le_open`, `withdraw_caps_slack`,
+`caps_slack_of_postcheck`, `withdraw_postcheck_kind` with OPEN INTEREST and a spread: `mBand` at index
+149/151 has a long pnl of 42 840 > 0 (pnl factor 28.67 % of the long pool after the withdrawal, under
+the 30 % withdrawal cap), supply 200 000, fresh borrowing clock; deposit then withdraw both succeed;
+`r.poolValue = 208 150 ≤ t.poolValue + credited = 209 840 + 2 010`, paid out 1 833 ≤ 2 010 + ε, ε = 2. -/
+example : (match deposit 64 1000000000 mBand ⟨10, 500, ⟨⟨149, 151⟩, ⟨149, 151⟩, ⟨1, 1⟩⟩⟩ PerpIn.zero with
+     | (m₁, .ok t) =>
+       (match withdraw 64 1000000000 m₁ ⟨t.report.minted, ⟨⟨149, 151⟩, ⟨149, 151⟩, ⟨1, 1⟩⟩⟩ PerpIn.zero with
+        | (m₂, .ok r) => some ([mBand.supply, passedInSeconds mBand.now mBand.clockBorrowing,
+            t.poolValue, creditedValue ⟨10, 500, ⟨⟨149, 151⟩, ⟨149, 151⟩, ⟨1, 1⟩⟩⟩ t, r.poolValue,
+            (r.longOut + r.feesL.pool + r.feesL.receiver) * 151 + (r.shortOut + r.feesS.pool + r.feesS.receiver) * 1,
+            (m₂.primary.long * 149 / 1000000000 + 1) + (m₂.primary.short * 1 / 1000000000 + 1)],
+            marketPnl 64 m₁ ⟨149, 151⟩ true true,
+            pnlFactorWithPoolValue 64 1000000000 m₂ ⟨⟨149, 151⟩, ⟨149, 151⟩, ⟨1, 1⟩⟩ true true)
+        | _ => none)
+     | _ => none) = some ([200000, 0, 209840, 2010, 208150, 1833, 2], some 42840, some (286656808, 149447)) := by
+  decide +kernel
+
 end Gmx.C06
